@@ -91,7 +91,41 @@ def gen(cls, idx, rng, tier):
                  {rng.randint(lo, hi) for _ in range(6)} |
                  {rng.randint(lo, hi) >> rng.randint(0, nb) for _ in range(6)})
     shape = rng.choice(["flat", "2d", "scalar0d"])
-    return dict(signed=signed, nb=nb, nf=nf, vals=vals, fps=fps, shape=shape)
+    big = None
+    if idx % 20 == 7:
+        # arrays as large as real weight matrices (any size threshold inside
+        # the converters is crossed), in every memory layout numpy has
+        big = dict(n=rng.choice([65535, 65536, 65537, 70001, (1 << 17) + 3,
+                                 300 * 301, rng.randint(40000, 200000)]),
+                   layout=rng.choice(["c1d", "c2d", "fortran", "transposed",
+                                      "axes3", "strided", "reversed",
+                                      "broadcast"]),
+                   seed=rng.randrange(1 << 30))
+    return dict(signed=signed, nb=nb, nf=nf, vals=vals, fps=fps, shape=shape,
+                big=big)
+
+
+def lay_out(np, a, layout):
+    """the array `a` (1-D, C order) in the named memory layout; the same call
+    on an index array gives the element order of the result"""
+    n = len(a)
+    rows = next(r for r in (300, 256, 7, 3, 2, 1) if n % r == 0)
+    if layout == "c2d":
+        return a.reshape(rows, n // rows)
+    if layout == "fortran":
+        return np.asfortranarray(a.reshape(rows, n // rows))
+    if layout == "transposed":
+        return a.reshape(rows, n // rows).T
+    if layout == "axes3":
+        k = next(r for r in (5, 4, 3, 2, 1) if (n // rows) % r == 0)
+        return a.reshape(rows, k, n // rows // k).transpose(2, 0, 1)
+    if layout == "strided":
+        return np.repeat(a, 2)[::2]
+    if layout == "reversed":
+        return a[::-1]
+    if layout == "broadcast":
+        return np.broadcast_to(a[:max(1, n // 4)], (4, max(1, n // 4)))
+    return a
 
 
 def run(case, ctx):
@@ -194,6 +228,41 @@ def run(case, ctx):
                       "numpy-converter-reuse",
                       "%s through the same converter object: %r, exact %r" %
                       (label, o2.reshape(-1).tolist()[:6], want2[:6]), **fmt)
+        if case.get("big"):
+            b = case["big"]
+            pick = np.random.RandomState(b["seed"] % (1 << 32)).randint(
+                0, len(vals), size=b["n"])
+            src = lay_out(np, np.array(vals, dtype=np.float64)[pick],
+                          b["layout"])
+            want = lay_out(np, np.array(exact, dtype=want_dtype)[pick],
+                           b["layout"])
+            keep = src.copy()
+            with warnings.catch_warnings():
+                warnings.simplefilter("ignore")
+                got = c(src)
+            ctx.hit("large_array_layout")
+            check(got.dtype == want_dtype and got.shape == src.shape,
+                  "numpy-shape", "large %s array: %r %r" %
+                  (b["layout"], got.dtype, got.shape), **fmt)
+            bad = np.argwhere(got != want)
+            check(len(bad) == 0, "numpy-vs-scalar",
+                  "%d of %d elements of a large array (%s layout) differ "
+                  "from the scalar converter, first at %r: %r, scalar %r" %
+                  (len(bad), src.size, b["layout"],
+                   tuple(bad[0]) if len(bad) else None,
+                   got[tuple(bad[0])] if len(bad) else None,
+                   want[tuple(bad[0])] if len(bad) else None), **fmt)
+            check(np.array_equal(src, keep), "numpy-input-mutated",
+                  "large array", **fmt)
+            kk = T.NumpyFixToFloatConverter(nf)
+            back = kk(want)
+            wantf = lay_out(np, np.array([g(int(e)) for e in
+                                          np.array(exact,
+                                                   dtype=want_dtype).tolist()],
+                                         dtype=np.float64)[pick], b["layout"])
+            check(back.shape == want.shape and np.array_equal(back, wantf),
+                  "numpy-fix-to-float", "large %s array differs from the "
+                  "scalar converter" % b["layout"], **fmt)
         if case["shape"] == "scalar0d":
             with warnings.catch_warnings():
                 warnings.simplefilter("ignore")
